@@ -13,7 +13,7 @@ INFO = {
                "documented spelling resolves to a different function than documented; the terminator sets of all "
                "open-ended token readers of the expression language contain every argument separator (whitespace, "
                "`,`, `)`) and end of input, for all 256 byte values; compiled patterns are obtained only through "
-               "the cache, which is keyed by the pattern text it compiles. `(.f x)` pushes the root extractor first and strips exactly the dot; the --set stage is the outermost stage, so its bindings are in scope in every option position. The bounded regex cache is never asked for capacity 0, whatever size is configured. The five expression options hand the whole option text to the expression reader.",
+               "the cache, which is keyed by the pattern text it compiles. `(.f x)` pushes the root extractor first and strips exactly the dot; the --set stage is the outermost stage, so its bindings are in scope in every option position. The bounded regex cache is never asked for capacity 0, whatever size is configured. The five expression options hand the whole option text to the expression reader. The command-line layer hands every option value to its parser whole (no value delimiter / terminator is declared on any argument).",
     "not_decided": "Evaluation equality across option positions on run-time values, and (.f x) == (f . x) beyond the "
                    "presence of the rewrite.",
     "trusted": ["sa/tables/aliases.toml (documented spellings)", "cached::SizedCache returns the value stored under an equal key"],
